@@ -13,6 +13,7 @@ mod docs;
 mod families;
 mod framework;
 mod meter;
+mod miri_engine;
 mod walker;
 mod ops;
 mod rng;
@@ -35,6 +36,43 @@ fn make_check(id: &str) -> Option<Box<dyn Check>> {
         "C13" => Some(Box::new(c13::C13::new())),
         _ => None,
     }
+}
+
+/// Second C13 engine: run the Miri scenarios, add their numbers to the evidence file, report failures.
+fn miri_stage(tier: Tier, root: &str, _code: i32) -> i32 {
+    let inst = std::env::var("VERIF_INST").unwrap_or_default();
+    let r = miri_engine::run(tier, &inst, env_seed());
+    let ev_path = format!("{}/evidence/C13.json", root);
+    if let Ok(text) = std::fs::read_to_string(&ev_path) {
+        if let Ok(mut j) = serde_json::from_str::<serde_json::Value>(&text) {
+            j["coverage"]["miri_engine"] = r.evidence.clone();
+            let extra = r.evidence["executions"].as_u64().unwrap_or(0);
+            if let Some(e) = j["coverage"]["evaluations"].as_u64() {
+                j["coverage"]["evaluations"] = serde_json::json!(e + extra);
+            }
+            if let Some(v) = j["violations"].as_u64() {
+                j["violations"] = serde_json::json!(v + r.violations.len() as u64);
+            }
+            let _ = std::fs::write(&ev_path, serde_json::to_string_pretty(&j).unwrap());
+        }
+    }
+    let mut code = 0;
+    println!("C13 miri engine: {} executions, {} failure(s), {:.1}s", r.evidence["executions"], r.violations.len(), r.evidence["wall_s"].as_f64().unwrap_or(0.0));
+    for (sig, detail, case) in &r.violations {
+        let dir = format!("{}/replays/C13", root);
+        let _ = std::fs::create_dir_all(&dir);
+        let path = format!("{}/miri-{:016x}.json", dir, rng::fnv64(format!("{}{}", sig, case).as_bytes()));
+        let _ = std::fs::write(&path, serde_json::to_string_pretty(&serde_json::json!({"property": "C13", "signature": sig, "detail": detail, "case": case})).unwrap());
+        println!("VIOLATION property=C13 replay={}", path);
+        println!("  signature: {}", sig);
+        println!("  detail: {}", detail);
+        code = 1;
+    }
+    for e in &r.harness_errors {
+        eprintln!("HARNESS-ERROR: {}", e);
+        code = 2;
+    }
+    code
 }
 
 fn env_seed() -> u64 {
@@ -106,7 +144,23 @@ fn real_main() {
             Some(mut check) => {
                 if a(2) == "--replay" {
                     let ctx = WorkerCtx { verif_seed: env_seed(), tier: Tier::Quick, repo };
-                    replay_main(check.as_mut(), &ctx, a(3))
+                    // recorded failures of the Miri engine are replayed by Miri seed
+                    let miri_case = std::fs::read_to_string(a(3)).ok().and_then(|t| serde_json::from_str::<serde_json::Value>(&t).ok()).filter(|j| j["case"]["engine"] == "miri");
+                    if let Some(j) = miri_case {
+                        let inst = std::env::var("VERIF_INST").unwrap_or_default();
+                        match miri_engine::replay(&inst, &j["case"]) {
+                            Some((sig, detail)) if Some(sig.as_str()) == j["signature"].as_str() => {
+                                println!("REPRODUCED {}\n  {}", sig, detail);
+                                1
+                            }
+                            other => {
+                                println!("NOT-REPRODUCED want {:?} got {:?}", j["signature"], other.map(|x| x.0));
+                                0
+                            }
+                        }
+                    } else {
+                        replay_main(check.as_mut(), &ctx, a(3))
+                    }
                 } else {
                     let tier = match Tier::parse(a(2)).or_else(|| std::env::var("VERIF_TIER").ok().and_then(|t| Tier::parse(&t))) {
                         Some(t) => t,
@@ -117,7 +171,11 @@ fn real_main() {
                     };
                     let info = check.info();
                     let total = std::env::var("VERIF_RUNS").ok().and_then(|s| s.parse().ok()).unwrap_or_else(|| check.total_runs(tier));
-                    supervisor_main(&info, total, tier, env_seed(), &root)
+                    let mut code = supervisor_main(&info, total, tier, env_seed(), &root);
+                    if id == "C13" && std::env::var("VERIF_NO_MIRI").is_err() {
+                        code = code.max(miri_stage(tier, &root, code));
+                    }
+                    code
                 }
             }
         },
